@@ -25,7 +25,7 @@ for p in props:
             "level_claimed": {
                 "category": "proof",
                 "text": m.get("level_text", "Lean 4 theorems about a hand-written executable model (all inputs, no size bound), tied to the code by a per-run correspondence check (real library vs. model on generated inputs) plus independent oracles in the harness."),
-                "design_ref": f"DESIGN.md sec. 3 ({pid})",
+                "design_ref": f"DESIGN.md sec. 8.3 / 8.5 ({pid}: as built); sec. 3 ({pid}: plan)",
             },
             "level_note": m.get("level_note", "Trusted: Lean kernel + axioms propext/Classical.choice/Quot.sound (audited on every run); the hand-written model corresponds to the code only as far as the generated inputs show; Rust std contracts as listed in DESIGN.md sec. 1/2.5.") + (" PARTIAL: " + m["partial"] if m.get("partial") else ""),
             "technique": m.get("technique", "Lean 4 proof over executable model + differential correspondence check"),
